@@ -43,3 +43,16 @@ vharness! {
         assert!(false, "VERIF_MARKER: check_for_leaks returned although an object is leaked");
     }
 }
+
+/// A pending operation on the object at `index` (harness-side constructor).
+pub(crate) fn op(index: usize, action: Action) -> Operation {
+    Operation { obj: Ref::from_usize(index), action, location: Location::disabled() }
+}
+
+pub(crate) fn op_index(o: &Operation) -> usize {
+    o.obj.index
+}
+
+pub(crate) fn ref_index<T>(r: Ref<T>) -> usize {
+    r.index
+}
